@@ -182,13 +182,16 @@ class Recorder:
         e = self.engine
         st = e.__dict__.get('state') if e is not None else None
         found = None
-        if st is not None:
-            for path, node in st.depth():
-                v = node.value
-                mp = getattr(v, 'multiprocess', None)
-                if v is obj or (mp is not None and getattr(mp, 'party', None) is obj):
-                    found = tuple(path)
-                    break
+        try:
+            if st is not None:
+                for path, node in st.depth():
+                    v = node.value
+                    mp = getattr(v, 'multiprocess', None)
+                    if v is obj or (mp is not None and getattr(mp, 'party', None) is obj):
+                        found = tuple(path)
+                        break
+        except Exception as exc:   # the harness' own bookkeeping failed: never a verdict
+            self.extra['harness_fault'] = 'locate: %r' % (exc,)
         cache[key] = found
         return found
 
@@ -206,15 +209,18 @@ class Recorder:
             return c
         return self._idmap(st)
 
-    @staticmethod
-    def _idmap(st):
+    def _idmap(self, st):
         out = {}
-        for path, node in st.depth():
-            out[tuple(path)] = id(node)
-            v = node.value
-            if _is_process(v):
-                # identity of the process object held by the node
-                out[('<P>',) + tuple(path)] = id(v)
+        try:
+            for path, node in st.depth():
+                out[tuple(path)] = id(node)
+                v = node.value
+                if _is_process(v):
+                    # identity of the process object held by the node
+                    out[('<P>',) + tuple(path)] = id(v)
+        except Exception as exc:
+            self.extra['harness_fault'] = 'idmap: %r' % (exc,)
+            return None
         return out
 
     # -- log ------------------------------------------------------------
